@@ -29,7 +29,90 @@ type wideEvent struct {
 	B    string `json:"b"`
 	Src  string `json:"src"` // the expression as written
 	Exp  string `json:"exp"`
+	Alt  string `json:"alt"` // a second acceptable token ("" = none)
 	Got  string `json:"got"`
+}
+
+// String literals with escapes (property C03: "set and declare store the expression's value, += appends"):
+// the value of "a\"b" is its content as written between the quotes, or that content with \" and \\
+// resolved - no property says which - and under both readings every character of the literal counts.
+var wideStringLiterals = []string{`"plain"`, `""`, `"\""`, `"a\"b"`, `"\\"`, `"she said \"hi\""`, `"\"\""`, `"tail\\"`, `"\\\""`, `"x\\y"`,
+	`"\"start"`, `"end\""`, `"\"both\""`, `"two \"\" inside"`, `"\\\\"`}
+
+func wideStrTok(s string) string { return fmt.Sprintf("s%x", []byte(s)) }
+
+func wideUnescape(raw string) string {
+	var sb strings.Builder
+	for i := 0; i < len(raw); i++ {
+		if raw[i] == '\\' && i+1 < len(raw) && (raw[i+1] == '"' || raw[i+1] == '\\') {
+			i++
+		}
+		sb.WriteByte(raw[i])
+	}
+	return sb.String()
+}
+
+// wideStringEvents: set / declare / += with each literal.
+func wideStringEvents() []*wideEvent {
+	var evs []*wideEvent
+	for _, lit := range wideStringLiterals {
+		raw := lit[1 : len(lit)-1]
+		for _, op := range []string{"strset", "strdecl", "strapp"} {
+			pre := ""
+			if op == "strapp" {
+				pre = "x"
+			}
+			evs = append(evs, &wideEvent{ID: len(evs) + 1, Op: op, Form: "lit", A: wideStrTok(raw), B: "", Src: lit,
+				Exp: wideStrTok(pre + raw), Alt: wideStrTok(pre + wideUnescape(raw))})
+		}
+	}
+	return evs
+}
+
+func wideRunStrings(evs []*wideEvent) {
+	var sb strings.Builder
+	sb.WriteString("title: Start\n---\n")
+	for i, e := range evs {
+		switch e.Op {
+		case "strset":
+			fmt.Fprintf(&sb, "<<set $r%d = %s>>\n", i, e.Src)
+		case "strdecl":
+			fmt.Fprintf(&sb, "<<declare $r%d = %s>>\n", i, e.Src)
+		default:
+			fmt.Fprintf(&sb, "<<set $r%d = \"x\">>\n<<set $r%d += %s>>\n", i, i, e.Src)
+		}
+	}
+	sb.WriteString("done\n===\n")
+	storer := variable.NewInMemoryStorer()
+	for _, e := range evs {
+		e.Got = "norun"
+	}
+	guarded(func() {
+		dr, err := ysgo.NewDialogueRunner(storer, "", strings.NewReader(sb.String()))
+		if err != nil {
+			for _, e := range evs {
+				e.Got = "loaderror"
+			}
+			return
+		}
+		for k := 0; k < 2*len(evs)+2; k++ {
+			el, err := dr.Next(0)
+			if err == nil && (el == nil || el.Line != nil) {
+				break
+			}
+		}
+		for i, e := range evs {
+			v, ok := storer.GetValue(fmt.Sprintf("r%d", i))
+			switch {
+			case !ok || v == nil:
+				e.Got = "err"
+			case v.String != nil:
+				e.Got = wideStrTok(*v.String)
+			default:
+				e.Got = "nostring"
+			}
+		}
+	})
 }
 
 func wideTok(f float64) string {
@@ -179,6 +262,17 @@ func coreWideArith(m map[string]string) error {
 	w, err := newNDJSON(m["out"])
 	if err != nil {
 		return err
+	}
+	if m["strings"] == "1" {
+		evs := wideStringEvents()
+		wideRunStrings(evs)
+		for _, e := range evs {
+			if err := w.Write(e); err != nil {
+				return err
+			}
+		}
+		fmt.Printf("{\"events\":%d}\n", len(evs))
+		return w.Close()
 	}
 	var evs []*wideEvent
 	if f := m["in"]; f != "" { // replay of stored events
